@@ -68,9 +68,29 @@ def programs(w) -> Any:
                             shapes.append([rng.randint(1, 2), None, n_pre])  # gap: middle class does not override
                             if thorough or rnd == 0:
                                 shapes.append([rng.randint(1, 2), rng.randint(0, 2), n_pre])
+                            # two direct bases which both state preconditions for the member (either group admits the call)
+                            shapes.append(("join", rng.randint(1, 2), rng.randint(1, 2), n_pre))
                         elif kind in ("init", "new") and n_pre <= 2:
                             shapes.append([rng.randint(1, 2), n_pre])  # ctor contracts are not inherited
                         for shape in shapes:
+                            if isinstance(shape, tuple):
+                                base = ids.new("m")
+                                roots = []
+                                for npre_l in shape[1:3]:
+                                    cname = ids.new("K")
+                                    members = [gen.make_member(ids, rng, kind, base, is_async, npre_l, 0, 0)]
+                                    if kind in ("pset", "pdel"):
+                                        members.insert(0, gen.make_member(ids, rng, "pget", base, False, 0, 0, 0))
+                                    classes.append(gen.chain_class(cname, [], members, [], dbc=True))
+                                    roots.append(cname)
+                                cname = ids.new("K")
+                                members = [gen.make_member(ids, rng, kind, base, is_async, shape[3], n_post, n_snap)]
+                                if kind in ("pset", "pdel"):
+                                    members.insert(0, gen.make_member(ids, rng, "pget", base, False, 0, 0, 0))
+                                classes.append(gen.chain_class(cname, roots, members, [gen.make_inv(ids, rng)] if sur == "inv" else [], dbc=True))
+                                for name in roots + [cname]:
+                                    calls.append((name, base, kind, {"kind": kind, "async": is_async, "shape": list(shape), "sur": sur}))
+                                continue
                             prev = []  # type: List[str]
                             names = []
                             base = ids.new("m")
